@@ -39,6 +39,9 @@ type c06Line struct {
 	Changed  []string          `json:"changed"`  // valid case: entries whose inode / mtime / size changed
 	DirSwap  bool              `json:"dirswap"`  // a non-directory sits where a directory is expected
 	Leak     int               `json:"leak"`
+	// a SECOND heal of the (now healed) directory with the SAME validator context: must return nil and touch nothing
+	AgainErr     string   `json:"againerr"`
+	AgainChanged []string `json:"againchanged"`
 }
 
 func zipBuild(path string, t *tree) error {
@@ -140,7 +143,7 @@ func cmdC06(args []string) error {
 	disks := modelDisks()
 	for k := *first; k < *first+*n; k++ {
 		rng := newRand(int64(6000 + k))
-		line := c06Line{Case: k, Mode: *mode, Damage: []string{}, Diff: []string{}, Changed: []string{}, Disk: map[string]string{}}
+		line := c06Line{AgainChanged: []string{}, Case: k, Mode: *mode, Damage: []string{}, Diff: []string{}, Changed: []string{}, Disk: map[string]string{}}
 		root, err := os.MkdirTemp("", "c06-")
 		if err != nil {
 			return err
@@ -311,6 +314,24 @@ func cmdC06(args []string) error {
 			if len(line.AfterErr) > 160 {
 				line.AfterErr = line.AfterErr[:160]
 			}
+		}
+		if line.Returned && line.Err == "" && len(line.Diff) == 0 {
+			b2 := statTree(dir)
+			if err := vctx.Validate(context.Background(), dir, si); err != nil {
+				line.AgainErr = err.Error()
+			}
+			a2 := statTree(dir)
+			for p, b := range b2 {
+				if a, ok := a2[p]; !ok || a != b {
+					line.AgainChanged = append(line.AgainChanged, p)
+				}
+			}
+			for p := range a2 {
+				if _, ok := b2[p]; !ok {
+					line.AgainChanged = append(line.AgainChanged, "+"+p)
+				}
+			}
+			sort.Strings(line.AgainChanged)
 		}
 		if line.Valid {
 			after := statTree(dir)
